@@ -225,6 +225,24 @@ pub fn check_unquote(v: &Unquote<'_>, acc: &mut Acc) -> Result<(), Fail> {
         "c17-cow-vs-string",
         "value {raw:?}: to_cow() = {s3:?} but character-by-character unquoting gives {s1:?}"
     );
+    // totality also for a value whose iteration has begun: after k steps
+    // neither form may panic (their relation is not fixed by the statement)
+    let nchars = raw.chars().count();
+    for k in 1..=nchars.min(6) + 1 {
+        let mut it = v.clone();
+        for _ in 0..k {
+            it.next();
+        }
+        if let Err(msg) = catch(|| {
+            let _ = it.to_cow();
+            let _ = it.to_string();
+        }) {
+            fail!(
+                "c17-unquote-panic-after-steps",
+                "value {raw:?}: to_cow()/to_string() panicked after {k} iteration steps: {msg}"
+            );
+        }
+    }
     if raw.starts_with('"') {
         let body = &raw[1..];
         // find the closing quote honouring escapes
